@@ -131,6 +131,12 @@ Fixpoint t_upd_kids (f : list wtree -> list wtree) (id : Z) (t : wtree) : wtree 
     Node i (if w_id i =? id then f ch' else ch')
   end.
 
+(* the ids of a window and of everything below it (preorder) *)
+Fixpoint sub_ids (t : wtree) : list Z :=
+  match t with Node i ch => w_id i :: flat_map sub_ids ch end.
+
+Definition id_in (x : Z) (l : list Z) : bool := existsb (fun y => y =? x) l.
+
 (* the z-order edits of _do_hierarchy_* on a child list *)
 Definition kids_remove (id : Z) (l : list wtree) : list wtree :=
   filter (fun c => negb (t_id c =? id)) l.
@@ -421,7 +427,7 @@ Record root := mkRoot {
 
 Definition root_new (nl nc : Z) : root :=
   mkRoot (Node (new_info 0 (mkRect 0 0 nl nc) false false) []) [] [] [] false false false false
-         false 0 0 0 None.
+         false 0 (-1) (-1) None.
 
 Definition set_tree (st : root) (t : wtree) : root :=
   mkRoot t (r_orphans st) (r_damage st) (r_queue st) (r_nexp st) (r_nrest st) (r_later st) (r_fault st)
@@ -541,16 +547,23 @@ Definition win_new (st : root) (id pid : Z) (r : rect) (hidden lowest rootparent
     if negb hidden then win_expose st' pid' (Some r') else st'
   end.
 
-(* tickit_window_close (with the purge of queued restacks, the repair of defect #17) *)
+(* tickit_window_close.  With the repairs of #17 and #21: the root forgets the queued restacks
+   about the window or anything below it, and the drag source if it lies there. *)
 Definition win_close (cfg : defects) (st : root) (id : Z) : root :=
   match t_chain id (r_tree st) with
   | Some (w :: p :: _) =>
     let pid := t_id p in
     let tr1 := t_upd_kids (kids_remove id) pid (r_tree st) in
     let tr2 := t_update (fun j => if opt_eqb (w_fchild j) id then set_fchild j None else j) pid tr1 in
-    let st0 := set_queue (set_orphans (set_tree st tr2) (w :: r_orphans st))
-                         (filter (fun e => match e with (_, p', w') => negb ((p' =? id) || (w' =? id)) end)
-                                 (r_queue st)) in
+    let gone := sub_ids w in
+    let st00 := set_queue (set_orphans (set_tree st tr2) (w :: r_orphans st))
+                          (filter (fun e => match e with (_, _, w') => negb (id_in w' gone) end) (r_queue st)) in
+    let st0 := match r_dsrc st00 with
+               | Some src => if negb (d_drag_stale cfg) && id_in src gone
+                             then set_drag st00 (r_dragging st00) (r_lbtn st00) (r_lline st00) (r_lcol st00) None
+                             else st00
+               | None => st00
+               end in
     let st1 := if opt_eqb (w_fchild (t_info p)) id && negb (d_chain_norestore cfg)
                then request_restore st0 else st0 in
     if w_vis (t_info w) then win_expose st1 pid (Some (w_rect (t_info w))) else st1
